@@ -1,6 +1,7 @@
 #![allow(dead_code)]
 mod c03;
 mod c04;
+mod c06;
 mod c08;
 mod c09;
 mod c10;
@@ -42,6 +43,7 @@ fn main() {
         "literals-replay" => c09::cmd_replay(rest),
         "arms-replay" => c08::cmd_replay(rest),
         "consts-replay" => c12::cmd_replay(rest),
+        "determinism" => c06::cmd_determinism(rest),
         "c16-replay" => c16::cmd_replay(rest),
         "c16-products" => c16::cmd_products(rest),
         "compile-one" => corpus::cmd_compile_one(rest),
